@@ -85,7 +85,7 @@ func propC20(c *ctx) error {
 	defaultKw := []kwSpec{{"T", 0, 1, 0}, {"N", 0, 1, 2}, {"N64", 0, 1, 2}, {"X", 1, 2, 0}, {"XN", 1, 2, 3}, {"XN64", 1, 2, 3}, {"__", 0, 1, 0}, {"_n", 0, 1, 2}, {"_x", 1, 2, 0}, {"_xn", 1, 2, 3}}
 	customKw := []kwSpec{{"tr", 0, 1, 0}, {"trn", 0, 1, 2}, {"pgettext", 1, 2, 0}, {"second", 0, 2, 0}}
 	customFlag := "tr;trn:1,2;pgettext:1c,2;second:2"
-	strs := []string{"hello", "Hello, World", "it's", "say \"hi\"", "a\\b", "line1\nline2", "tab\there", "é✓", "100%", "{braces}", "${x}", "", "plural form", "ctx"}
+	strs := []string{"hello", "Hello, World", "it's", "say \"hi\"", "a\\b", "line1\nline2", "tab\there", "é✓", "100%", "{braces}", "${x}", "", "plural form", "ctx", "trail\\", "\\'q"}
 	work := filepath.Join(c.root, ".work", fmt.Sprintf("xtpl-%d", os.Getpid()))
 	defer os.RemoveAll(work)
 	n := c.n(60, 2500)
@@ -107,6 +107,13 @@ func propC20(c *ctx) error {
 		var rtCalls []string // calls with literal msgid that the templates make at run time: "name|ctx|id|plural"
 		nfiles := 1 + r.n(3)
 		var rcFiles [][2]string
+		type prevCall struct {
+			kw    kwSpec
+			args  []string
+			vals  []string
+			isLit []bool
+		}
+		var prevCalls []prevCall
 		for f := 0; f < nfiles; f++ {
 			fname := []string{"a.html", "sub/b.html", "c.html"}[f]
 			var sb strings.Builder
@@ -156,6 +163,13 @@ func propC20(c *ctx) error {
 						}
 						args[a], vals[a], isLit[a] = text, s, true
 					}
+				}
+				// repeated occurrences of one call (every occurrence must be referenced)
+				if len(prevCalls) > 0 && r.p(35) {
+					pc := prevCalls[r.n(len(prevCalls))]
+					kw, args, vals, isLit, nargs = pc.kw, pc.args, pc.vals, pc.isLit, len(pc.args)
+				} else {
+					prevCalls = append(prevCalls, prevCall{kw, args, vals, isLit})
 				}
 				callee := kw.name
 				switch r.n(5) {
